@@ -154,7 +154,7 @@ theorem buildOK_func (id : Option String) (ch : Chan) (dur e : Expr) (meas : Lis
           intro t
           simp [Wf.sample, hab]
       obtain ⟨w, rfl, hwd, hwch, hwl, hws⟩ := hleaf
-      refine ⟨by simp, hwd, ?_, ?_⟩
+      refine ⟨by simp, hwd, by simp [hwch, Pulse.chanNames], ?_, ?_⟩
       · intro hdpos
         rw [hwd] at hdpos
         have hdne : d ≠ 0 := ne_of_gt hdpos
